@@ -3,7 +3,7 @@ import json
 import subprocess
 import sys
 
-from . import adjacency, search, scc, serde, container, paired, cursor, ownership
+from . import adjacency, search, scc, serde, container, paired, cursor, ownership, locks
 
 REGISTRY = {}
 REGISTRY.update(adjacency.CHECKS)
@@ -14,6 +14,7 @@ REGISTRY.update(container.CHECKS)
 REGISTRY.update(paired.CHECKS)
 REGISTRY.update(cursor.CHECKS)
 REGISTRY.update(ownership.CHECKS)
+REGISTRY.update(locks.CHECKS)
 
 
 def replay(pid, path):
